@@ -139,6 +139,7 @@ def run(prop: str, tier: str) -> int:
     plain = states(rep, "plain<=%d" % (3 if quick else 4), max_nodes=3 if quick else 4, d=2 if quick else 3)
     ids = states(rep, "ids<=3", max_nodes=3, d=2, xids=(0, 11))
     typed = states(rep, "typed<=3", max_nodes=3, d=2, typed=True, kinds=(0, 2))
+    typed_ids = states(rep, "typed+ids<=2", max_nodes=2 if quick else 3, d=2, typed=True, kinds=(0, 2), xids=(0, 11))
     if prop == "C14":
         run_items(rep, prop, plain, "str", quick, "c14")
         run_items(rep, prop, plain, "dataclass", quick, "c14-objects")
@@ -151,6 +152,8 @@ def run(prop: str, tier: str) -> int:
         run_items(rep, prop, plain if not quick else plain[::2], "dataclass", quick, "objects")
         run_items(rep, prop, ids, "str", quick, "ids")
         run_items(rep, prop, typed, "str+typed", quick, "typed")
+        run_items(rep, prop, typed_ids, "str+typed", quick, "typed-ids")
+        run_items(rep, prop, typed_ids if not quick else typed_ids[::2], "dataclass+typed", quick, "typed-ids-objects")
         run_items(rep, prop, typed if not quick else typed[::3], "dataclass+typed", quick, "typed-objects")
         run_items(rep, prop, plain if not quick else plain[::3], "ustr", quick, "unicode")
         # falsy data objects (the empty string) rebuilt by the mappers
